@@ -94,10 +94,7 @@ func ListEvalSiblingConditions(p *core.Program, r *core.Report, rule string) {
 			ports := sig.Params().At(0)
 			for _, st := range fd.Decl.Body.List {
 				ifs, ok := st.(*ast.IfStmt)
-				if !ok || len(ifs.Body.List) != 1 {
-					continue
-				}
-				if _, isRet := ifs.Body.List[0].(*ast.ReturnStmt); !isRet {
+				if !ok || LastReturn(ifs.Body) == nil {
 					continue
 				}
 				// the condition must mention the ports parameter only
